@@ -1145,3 +1145,76 @@ func c10r8(rc *core.RC) {
 		rc.Unknown("module/context-pointer-fields", token.NoPos, "found %d stores to pointer fields of the pooled contexts inside functions (confirmed: the ,string stream context and the key encoder's scratch context; the pool constructors are package-level initialisers)", n)
 	}
 }
+
+// ---- C10.R9 error constructors hand out fresh values ----
+
+// The *SyntaxError / *UnmarshalTypeError values the library returns are written to afterwards: annotateError fills
+// in the Offset of a syntax error that a user's UnmarshalJSON returned, callers attach field and struct names. An
+// error constructor that returns one shared package-level value "built once" makes those writes race between
+// goroutines and lets one call's error change under the hands of another that still holds it. Every result of an
+// error constructor in internal/errors is therefore built in the call (a composite literal, a call), never the
+// value of a package-level variable.
+func c10r9(rc *core.RC) {
+	p := rc.P
+	n := 0
+	for _, fd := range p.Funcs("errors") {
+		if fd.Body == nil || fd.Type.Results == nil || fd.Recv != nil {
+			continue
+		}
+		info := p.Info(fd)
+		fn := p.FuncName(fd)
+		k := 0
+		ast.Inspect(fd.Body, func(m ast.Node) bool {
+			if _, isLit := m.(*ast.FuncLit); isLit {
+				return false
+			}
+			ret, ok := m.(*ast.ReturnStmt)
+			if !ok {
+				return true
+			}
+			for _, r := range ret.Results {
+				t := info.TypeOf(r)
+				if t == nil {
+					continue
+				}
+				if _, isPtr := t.Underlying().(*types.Pointer); !isPtr {
+					if _, isIface := t.Underlying().(*types.Interface); !isIface {
+						continue
+					}
+				}
+				k++
+				n++
+				rc.Touch(fn)
+				key := fmt.Sprintf("%s/result#%d built-in-the-call", fn, k)
+				shared := ""
+				var walk func(e ast.Expr, depth int)
+				walk = func(e ast.Expr, depth int) {
+					e = core.Unparen(e)
+					switch v := e.(type) {
+					case *ast.Ident:
+						o := core.ObjOf(info, v)
+						if vr, isVar := o.(*types.Var); isVar && vr.Pkg() != nil && vr.Parent() == vr.Pkg().Scope() {
+							shared = v.Name
+						} else if depth < 3 && o != nil {
+							if d := singleDef(info, fd.Body, o); d != nil {
+								walk(d, depth+1)
+							}
+						}
+					case *ast.UnaryExpr:
+						if v.Op == token.AND {
+							if id, isID := core.Unparen(v.X).(*ast.Ident); isID {
+								walk(id, depth)
+							}
+						}
+					}
+				}
+				walk(r, 0)
+				rc.Check(shared == "", key, ret.Pos(), "the error value is built in the call%s", map[bool]string{true: "", false: ": this return hands out the package-level variable " + shared + ", which every caller shares: the decoders write offsets and names into the errors they pass on (annotateError), so two goroutines race on it and an error a caller holds changes afterwards"}[shared == ""])
+			}
+			return true
+		})
+	}
+	if n < 10 {
+		rc.Unknown("errors/constructors", token.NoPos, "found %d pointer or interface results of constructors in internal/errors", n)
+	}
+}
